@@ -79,9 +79,10 @@ PROPS = {
     ),
     'C19': dict(
         title='Lint reports are complete, ordered by line, and linting never fails',
-        verus=['linter', 'visit_runner', 'visit_defaults', 'boring'], kani=['c19_'],
+        verus=['linter', 'visit_runner', 'visit_defaults', 'boring', 'boring_diag', 'lint_render', 'ast_lines', 'ast_ranges', 'source_range'], kani=['c19_'],
         technique=V + ' (ListBuilder build/combine/default incl. unreachable_unchecked sites, postprocess stable sort, '
-                      'Linter::run, repeated-identifier rule match_or_update / visit_function_call) + Kani recording '
+                      'Linter::run, repeated-identifier rule match_or_update / visit_function_call / visit_variable_name, its report (line, name, one suggestion) and fresh state; '
+                      'the line of every statement / expression node (units ast_lines, ast_ranges, source_range)) + Kani recording '
                       'visitors for the ExprVisitorRunner traversal the pass runs on',
     ),
     'C01': dict(
@@ -198,10 +199,13 @@ PROPS = {
     ),
     'C18': dict(
         title='Constant-assignment lint is exact and its suggested rewrite is equivalent',
-        verus=['boring', 'folder'], kani=['c18_'],
+        verus=['boring', 'folder', 'boring_diag', 'lint_render', 'ast_lines', 'ast_ranges', 'source_range'], kani=['c18_'],
         technique=V + ' — PARTIAL: report condition of visit_assignment / visit_poetic_number_assignment, no suggestion '
                       'without a poetic spelling, digit -> word template, as_text bytes (ASCII => from_utf8_unchecked sound), '
-                      'from_value domain (no underflow). Re-parsing the suggestion is not decided (parser out of reach)',
+                      'from_value domain (no underflow); how the report is assembled (build_diag and the three builders: the line given, ONE diagnostic, a suggestion exactly when there is a payload, '
+                      'a payload exactly when the number has a poetic spelling / the string has no line break); how the target is named (Render impls: the words as written, single spaces); '
+                      'which line is reported (impl Line for every statement node = the line of its first component; impl Range for expression nodes; SourceRange::concat / line). '
+                      'Re-parsing the suggestion is not decided (it would relate the linter to the parser)',
         level_note='partial: see DESIGN.md §5 C18; assumed: f64 Display of a finite sign-positive value uses digits and "." only',
     ),
 }
